@@ -74,6 +74,8 @@ class SMI(Machine):
     # ------------------------------------------------------------------ fmt
     def display(self, v):
         v = deref(v)
+        if isinstance(v, Adt) and v.name == 'Cow' and len(v.fields) == 1:
+            return self.display(v.fields[0])
         if isinstance(v, RString):
             return v.s
         if isinstance(v, (str, SymVal)):
@@ -251,7 +253,16 @@ class SMI(Machine):
         c = re.sub(r'^(?:std|core)::ops::(Range\w*)::', r'\1::', c)
         meth = c.split('::')[-1]
         a0 = args[0] if args else None
-        d0 = deref(a0) if args else None
+        try:
+            d0 = deref(a0) if args else None
+        except KeyError:
+            # a reference to a zero-sized local that MIR never assigns (a closure that captures nothing)
+            mz = re.match(r'<(\{closure@[^}]*\}) as Fn(Mut|Once)?<', c0)
+            if not mz:
+                raise Unsupported('reference to an unassigned local in ' + c0[:120])
+            a0 = Adt(mz.group(1), 0, [])
+            args = [a0] + list(args[1:])
+            d0 = a0
 
         # --- a tuple-variant constructor called as a function: Option::<Url>::Some(x)
         segs_ = strip_generics(c0).split('::')
@@ -1367,6 +1378,8 @@ class SMI(Machine):
     def as_iter(self, v, by_ref=False):
         """IntoIterator of a runtime value"""
         o = deref(v)
+        if isinstance(o, tuple) and len(o) == 2 and o[0] == 'item' and re.search(r'\biter::Empty(::)?<', o[1]):
+            return It(iter([]))         # the zero-sized std::iter::Empty passed as a constant
         if isinstance(o, It):
             return o
         if isinstance(o, list):
